@@ -678,6 +678,9 @@ var (
 	addrPool = []netip.Addr{
 		netip.MustParseAddr("1.2.3.4"), netip.MustParseAddr("0.0.0.1"), netip.MustParseAddr("::1"),
 		netip.MustParseAddr("fe80::1%eth0"), netip.MustParseAddr("::ffff:1.2.3.4"), netip.MustParseAddr("fe80::1"), {},
+		// Addresses whose text is a prefix of another's (with the names below:
+		// pairs whose concatenated texts coincide).
+		netip.MustParseAddr("1.1.1.1"), netip.MustParseAddr("1.1.1.11"), netip.MustParseAddr("fe80::1%eth"), netip.MustParseAddr("1.2.3.41"),
 	}
 	namePool = []string{"host", "HOST", "Host", "host.example", "Host.Example", "HOST.EXAMPLE", "a", "A", "b", "пример.рф", "例え.jp", "x-y.z", "X-Y.Z", "localhost",
 		// Non-ASCII cased letters: only ASCII-case variants of one another,
@@ -686,7 +689,8 @@ var (
 		// Names that differ from others of the pool by one trailing dot or a
 		// surrounding blank (direct Add takes names as they are: these are
 		// other names, with their own entries).
-		"host.", "HOST.example.", "a.", " a", "localhost."}
+		"host.", "HOST.example.", "a.", " a", "localhost.",
+		"1a.example", "a.example", "0gw", "gw", "1host", "0host"}
 )
 
 func checkStorage(c StorageCase) error {
